@@ -304,6 +304,12 @@ func (f *Frame) ReadFrom(r io.Reader) (n int64, err error) {
 }
 
 func (f Frame) WriteTo(w io.Writer) (int64, error) {
+	// A frame is its header plus the declared payload. The slice can be longer than that: a frame built without
+	// SetPayload keeps the frameMaxHeaderLength bytes it was allocated with. Do not put those on the wire.
+	if end := f.payloadOffset() + f.PayloadLength(); end >= 0 && end < len(f) {
+		f = f[:end]
+	}
+
 	written := 0
 	for written < len(f) {
 		n, err := w.Write(f[written:])
